@@ -162,6 +162,9 @@ func regoC01(c *checkCtx) {
 	progs = append(progs, regosym.FamilyAtoms(thorough)...)
 	progs = append(progs, regosym.FamilyQuantified(thorough)...)
 	progs = append(progs, regosym.FamilyGrouped(thorough)...)
+	if thorough {
+		progs = append(progs, regosym.FamilyBoundaries()...)
+	}
 	progs = append(progs, regosym.FamilyNestedAtoms(thorough)...)
 	progs = append(progs, regosym.FamilyAtomPaths(thorough)...)
 	if thorough {
@@ -236,10 +239,21 @@ func regoDifferential(c *checkCtx, progs []regosym.Program, step, graphs int) {
 				if gens[i].Error != "" {
 					continue
 				}
+				ck.LastDeviation = nil
 				n, msg := ck.Differential(sel[i], regosym.ScopeFor(sel[i], 3, 2, 4), gens[i].Code, graphs, false)
 				mu.Lock()
 				total += n
-				if msg != "" {
+				if ck.LastDeviation != nil {
+					// the real pipeline (input indexing + policy evaluation + report) departs from the reference
+					// where the model of the policy does not: e.g. the input index lost or altered something
+					o := *ck.LastDeviation
+					if c.spec.ID != "C01" {
+						o.Label = c.spec.ID + ".end-to-end-eq-reference"
+					}
+					c.disagreements++
+					dir := c.writeRegoReplay(o)
+					c.violations = append(c.violations, fmt.Sprintf("VIOLATION property=%s replay=%s label=%s program=%q detail=%q", c.spec.ID, dir, o.Label, o.Program, firstLine(o.Detail)))
+				} else if msg != "" {
 					c.inconclusive(fmt.Sprintf("regosym disagrees with the real implementation on program %q: %s", regosym.DescribeProgram(sel[i]), firstLine(msg)))
 				}
 				mu.Unlock()
@@ -290,6 +304,9 @@ func regoC02(c *checkCtx) {
 		return
 	}
 	c.absorb(outs, "C02.set-eq-denotation")
+	// end to end: count constraints over path shapes through the real pipeline (real input index, real
+	// engine) on graphs spread over the scope, against the relational denotation
+	regoDifferential(c, regosym.FamilyAtomPaths(c.tier == "thorough"), 3, 10)
 }
 
 func shapeFamily(thorough bool) []regosym.Program {
@@ -417,6 +434,7 @@ func regoC07(c *checkCtx) {
 	progs = append(progs, regosym.FamilyAtomPaths(thorough)...)
 	progs = append(progs, regosym.FamilySkeletons(2)...)
 	progs = append(progs, regosym.FamilyVariableIndex([]int{1, 2, 12, 22, 23, 24, 25, 26})...)
+	progs = append(progs, regosym.FamilyBoundaries()...)
 	for _, b := range regosym.BaseProfilesC15() {
 		if b.Name != "B4" { // B4 embeds Rego: outside C07
 			progs = append(progs, b)
